@@ -128,6 +128,40 @@ def gen_C08(v, n):
     return out
 
 
+def lopsided(v, leaves, tuples=False):
+    """'>' together with an alias: for a leaf whose extension belongs to an alias group, a sibling in
+    ANOTHER version holding another extension of that group.  Returns (extra leaf strings,
+    [(search with the concrete extension, search with the alias, index of '>')])"""
+    from gen import re_words
+    rng = v.rng
+    extra, extra_t, out = [], [], []
+    for label, fields in leaves[:3]:
+        keys = [k for k, _ in fields]
+        ext = fields[-1][1]
+        groups = [(a, exts) for a, exts in v.aliases.items() if ext in exts and len(exts) > 1]
+        vk = [k for k in keys[:-1] if dict(v.tdict[label])[k]["t"] != "star" and any(ch.isdigit() for ch in dict(fields)[k])]
+        if not groups or not vk:
+            continue
+        alias, exts = rng.choice(groups)
+        k = vk[-1]
+        i = keys.index(k)
+        words = [w for w in re_words(dict(v.tdict[label])[k], rng) if w not in ("*", ">") and w != fields[i][1]]
+        other_ext = rng.choice([e for e in exts if e != ext])
+        if not words or other_ext not in re_words(dict(v.tdict[label])[keys[-1]], rng, limit=200):
+            continue
+        sib = list(fields)
+        sib[i] = (k, rng.choice(words))
+        sib[-1] = (keys[-1], other_ext)
+        extra.append("/".join(val for _, val in sib))
+        extra_t.append((label, sib))
+        segs = [val for _, val in fields]
+        segs[i] = ">"
+        out.append(("/".join(segs), "/".join(segs[:-1] + [alias]), i))
+    if tuples:
+        return extra_t, out
+    return extra, out
+
+
 def gen_C09(v, n):
     rng = v.rng
     sg = SearchGen(v)
@@ -163,6 +197,12 @@ def gen_C09(v, n):
                 if j != i:
                     segs[j] = "*"
             out.append(_op("C09", {"tree": True, "leaves": ls, "s": "/".join(segs), "index": i}))
+        # one typed search of an alias search already served (its Finder chosen and cached), a FindInAll of
+        # another configuration name used in between, then the alias search: still one answer per group
+        extra, pairs = lopsided(v, leaves)
+        for s1, s2, i in pairs:
+            out.append(_op("C09", {"tree": True, "leaves": ls + extra, "s": s2, "index": i,
+                                   "before": [["all", None, s1], ["all", rng.choice(["review", "x"]), rng.choice([s1, "*"])]]}))
     return out
 
 
@@ -325,7 +365,16 @@ def gen_C12(v, n):
             segs[i] = ">"
             for last in (alias, ",".join(sorted([ext, other_ext])), ",".join(sorted([ext, other_ext], reverse=True))):
                 lopsided.append("/".join(segs[:-1] + [last]))
-        out.append(_op("C12", {"leaves": ls, "searches": _searches(v, leaves, 6, allow_gt=0.15) + lopsided + [rng.choice(ls)], "probes": probes}))
+        # list entries the configuration does not know, each with the star search that matches it first
+        list_junk, junk_searches = [], []
+        for s in rng.sample(ls, min(2, len(ls))):
+            segs = s.split("/")
+            i = rng.randrange(1, len(segs))
+            j = rng.randint(i + 1, len(segs))
+            list_junk.append("/".join(segs[:i] + [rng.choice(["zzjunk", "vehicle", segs[i] + "\n"])] + segs[i + 1:j]))
+            junk_searches.append("/".join(segs[:i] + ["*"] + segs[i + 1:j]))
+        out.append(_op("C12", {"leaves": ls, "searches": _searches(v, leaves, 6, allow_gt=0.15) + lopsided + [rng.choice(ls)] + junk_searches,
+                               "probes": probes, "list_junk": list_junk}))
     return out
 
 
@@ -432,7 +481,17 @@ def gen_C16(v, n):
             if rng.random() < 0.6:
                 data.append([s, [kv for kv in families._attr_data(rng) if kv[0] != "sid"]])
         queries = []
-        for s in _searches(v, leaves, 6, allow_gt=0.1) + [rng.choice(ls)]:
+        multi = []
+        for label, fields in leaves[:3]:
+            # several leaf types in one query: '>' / '*' on the version level with an open or or-listed leaf
+            keys = [k for k, _ in fields]
+            segs = [val for _, val in fields]
+            exts = sorted({f[-1][1] for _, f in leaves})
+            for vk in [k for k in keys[:-1] if any(ch.isdigit() for ch in dict(fields)[k])][-1:]:
+                i = keys.index(vk)
+                for last in ("*", ",".join(exts[:3]), ",".join(reversed(exts[:3]))):
+                    multi.append("/".join(segs[:i] + [rng.choice([">", "*"])] + segs[i + 1:-1] + [last]))
+        for s in _searches(v, leaves, 6, allow_gt=0.1) + [rng.choice(ls)] + multi:
             q = {"s": s, "enc": rng.choice(["str", "uri", "none"])}
             if rng.random() < 0.5:
                 q["attributes"] = rng.sample(["comment", "frames", "status", "sid", "nope"], rng.randint(1, 3))
@@ -505,6 +564,11 @@ def gen_C10(v, n):
                 alts = rng.sample(pool, min(len(pool), rng.randint(2, 3)))
                 if fields[i][1] not in alts and rng.random() < 0.7:
                     alts[0] = fields[i][1]
+                if rng.random() < 0.3:      # overlapping alternatives: the union must still hold each result once
+                    alts.insert(rng.randrange(len(alts) + 1), rng.choice(["*", alts[0]]))
+                if rng.random() < 0.3:      # ... and on a short search, ending on a level that constants may back
+                    cut = rng.randint(i + 1, len(segs))
+                    segs, keys = segs[:cut], keys[:cut]
                 s = "/".join(segs[:i] + [",".join(alts)] + segs[i + 1:])
                 rules.append({"kind": "or", "s": s, "alts": ["/".join(segs[:i] + [a] + segs[i + 1:]) for a in alts]})
             elif kind == "alias" and v.aliases and keys[-1] == v.leaf_keys.get(label.split(v.sep)[0]):
